@@ -196,7 +196,7 @@ def run(ctx: Ctx) -> None:
     def gen(i: int) -> fg.Program:
         return fg.gen_program(rng, rng.randint(1, 16), residuals=rng.randint(0, 4), wrappers=True, attention=True,
                               losses=(i % 4 == 0), fan_out=True, embedding=(i % 5 == 0), plain_adds=True,
-                              side_paths=(i % 2 == 0), kw_tensors=(i % 3 == 1))
+                              side_paths=(i % 2 == 0), kw_tensors=(i % 3 == 1), inplace_stmts=(i % 4 == 2))
 
     # ---------------- call history: an earlier unit_scale() call in this process supplied its own replacement; it must
     #                  hold for that call only (everything below runs after it)
